@@ -19,8 +19,8 @@ Verdict(e) ==
     \o Clause("C34:accepted_record_is_the_supplied_one", e.accepted => e.same)
     \o (CASE e.mut \in {"sig_twin", "reply_other"} -> <<>>
           [] e.mut = "net_field" -> Clause("C34:foreign_network_id_rejected", ~e.accepted)
-          [] e.mut = "none"      -> Clause("C34:own_signer_record_accepted", e.accepted = Accept(RecOf(e), e.vn))
-          [] OTHER               -> Clause("C34:changed_record_rejected", e.accepted = Accept(RecOf(e), e.vn)))
+          [] e.mut = "none"      -> Clause("C34:own_signer_record_accepted", e.accepted = Accept(RecOf(e), CheckNet(e)))
+          [] OTHER               -> Clause("C34:changed_record_rejected", e.accepted = Accept(RecOf(e), CheckNet(e))))
 
 \* conformance notes (never alarm)
 Note(l_, e) ==
